@@ -26,20 +26,20 @@ theorems already use it as their hypothesis.  So the numeric storey is stated fr
   `accepted_defined`, `accepted_hess_psd`, `accepted_leaf_summary`           (§3–§5)
 
 The state-machine storey maps what a `Validate.Dev` *holds* to a leaf, `Dev.toLeaf?` (§6), and proves that
-every device a constructor returns — and every device reached from it by accepted assignments — lands in
-`Leaf.AcceptedCore` (§7), the part of `Leaf.Accepted` the numeric theorems actually consume.  It is
-`Leaf.Accepted` minus two clauses that are **not** invariants of the setter state machine:
+every device a constructor returns — and every device reached from it by **any** history of assignments, each
+accepted or rejected-and-caught (`Reach`, `runAll`) — lands in `Leaf.AcceptedCore` (§7), the part of `Leaf.Accepted`
+the numeric theorems actually consume.  It is `Leaf.Accepted` minus two clauses that are **not** invariants of the
+setter state machine:
 
 * feasibility of a stored cumulative bound against the *current* per-slot bounds (`set_cbound` checks it
   once, against the bounds of that moment; a later `bounds` assignment is not re-checked) —
   `stale_cbound_reachable`;
 * `CDevice2`'s range tiling (`_validate_ranges` runs in `__init__` only) — `cdevice2_ranges_stale`.
 
-Directly after a constructor (no `bounds` / `cbounds` keyword repeated) the full `Leaf.Accepted` holds:
-`construct_accepted`.  Working from `Dev` alone was not an option: `Dev` records only the *shape* of a
-`GDevice` coefficient table, nothing of an `ADevice` function, and `TDevice` is not a `Cls` (its checks are
-`tdeviceCheck`, tied in by `tdevice_check_accepted`); real (non-integer) `IDevice` exponents have no
-`Leaf` at all and get their own statement (§8).
+Directly after a constructor (no `bounds` keyword repeated) the full `Leaf.Accepted` holds: `construct_accepted`,
+and for `TDevice` (`TDev`, one constructor, no setters) `tdeviceCtor_accepted`.  Working from `Dev` alone was not an
+option: `Dev` records only the *shape* of a `GDevice` coefficient table and nothing of an `ADevice` function (`Ext`);
+real (non-integer) `IDevice` exponents have no `Leaf` at all and get their own statement (§8).
 
 ## Open corners (accepted, but outside the numeric theorems)
 
@@ -584,8 +584,9 @@ noncomputable def _root_.DK.Validate.Dev.toLeaf? (d : Dev ℝ) (x : Ext) : Optio
 /-- shape of a stored cumulative bound. -/
 def cb4Shape (n : ℕ) (c : CBound4 ℝ) : Prop := 0 ≤ c.s ∧ c.s < c.e ∧ c.e ≤ (n : ℤ) ∧ c.l < c.h
 
-/-- the invariant of *accepted* assignments (the parameter invariants of C11d hold even after rejected ones;
-the table and generator clauses do not: `C11.gen_rejected_bounds_retained`). -/
+/-- the invariant of **every** assignment, accepted or rejected (validators now check before they store; the one
+store-before-raise left — a mis-read `bounds` table on a length-2 device, `C11.rejected_bounds_misread_retained` —
+still stores a table that passed the `low ≤ high` check: `validateBoundsW_tableOK`). -/
 structure RInv (d : Dev ℝ) : Prop where
   pinv : C11.PInv d
   shl : C11.ScalarHL d
@@ -659,14 +660,38 @@ theorem cb4Ok_shape (n : ℕ) (lb hb : ℕ → ℝ) (c : CBound4 ℝ) (h : cb4Ok
   obtain ⟨⟨h0, h1, h2⟩, h3, _, _⟩ := (C11.cbound_accept_iff n lb hb c).mp h
   exact ⟨h0, h1, h2, h3⟩
 
-/-- one **accepted** assignment preserves `RInv`. -/
-theorem step_rinv {d : Dev ℝ} {f : Field} {v : Val ℝ} {d' : Dev ℝ} (h : C11.Step d f v (d', none)) (hi : RInv d) :
-    RInv d' := by
-  have hp : C11.PInv d' := C11.step_pinv h hi.pinv
-  have hs : C11.ScalarHL d' := C11.step_scalarHL h hi.shl
+theorem finish_tableOK {w w' : ℕ} {rows : List (Row ℝ)} {t : Table ℝ} (h : finish w rows = .ok (w', t)) :
+    C11.TableOK t := by
+  obtain ⟨_, ht, _, hr⟩ := C11.finish_spec h
+  rw [ht]; exact C11.tableOK_of_rows hr
+
+theorem pairPath_tableOK {n w : ℕ} {a b : PyVal ℝ} {t : Table ℝ} (h : pairPath n a b = .ok (w, t)) :
+    C11.TableOK t := by
+  unfold pairPath at h
+  simp only at h
+  repeat' split at h
+  all_goals first
+    | exact finish_tableOK h
+    | simp at h
+
+/-- whatever `validate_bounds` returns — also in the mis-read region, where the width is not 2 — passed the
+`low ≤ high` (or all-`None`) check. -/
+theorem validateBoundsW_tableOK {v : PyVal ℝ} {n w : ℕ} {t : Table ℝ} (h : validateBoundsW v n = .ok (w, t)) :
+    C11.TableOK t := by
+  unfold validateBoundsW at h
+  repeat' split at h
+  all_goals first
+    | exact finish_tableOK h
+    | exact pairPath_tableOK h
+    | simp at h
+
+/-- one assignment — **accepted or rejected** — preserves `RInv`. -/
+theorem step_rinv {d : Dev ℝ} {f : Field} {v : Val ℝ} {r : Dev ℝ × Option Err} (h : C11.Step d f v r) (hi : RInv d) :
+    RInv r.1 := by
+  have hp : C11.PInv r.1 := C11.step_pinv h hi.pinv
+  have hs : C11.ScalarHL r.1 := C11.step_scalarHL h hi.shl
   obtain ⟨hcls, hn, htab, hcb⟩ := C11.step_frame h
-  simp only at hcls hn htab hcb
-  have hg : (d'.cls = .gdevice ∨ d'.cls = .pvdevice) → C11.HbNonpos d' := by
+  have hg : (r.1.cls = .gdevice ∨ r.1.cls = .pvdevice) → C11.HbNonpos r.1 := by
     intro hc
     rw [hcls] at hc
     exact C11.step_gen hc h (hi.gen hc)
@@ -674,19 +699,18 @@ theorem step_rinv {d : Dev ℝ} {f : Field} {v : Val ℝ} {d' : Dev ℝ} (h : C1
   · by_cases hf : f = .bounds
     · subst hf
       cases h with
-      | bounds bv w t e hf' hv hw he =>
-        rcases C11.validateBoundsW_spec hw with ⟨_, _, _, hok⟩ | ⟨hw2, _⟩
-        · exact hok
-        · exact absurd (he rfl).1 hw2
+      | rejected e => exact hi.tab
+      | bounds bv w t e hf' hv hw hg' he => exact validateBoundsW_tableOK hw
       | attr ho => exact absurd (C11.owns_bounds d) ho
       | _ => contradiction
     · rw [htab hf]; exact hi.tab
   · by_cases hf : f = .cbounds
     · subst hf
       cases h with
+      | rejected e => exact hi.cb
       | attr ho => exact absurd (C11.owns_cbounds d) ho
       | cbNone hf' hv => intro cs hcs; cases hcs
-      | cb spec st e hf' hv hs' hr =>
+      | cb spec st hf' hv hs' hr =>
         intro cs hcs c hc
         simp only at hcs
         subst hcs
@@ -700,22 +724,18 @@ theorem step_rinv {d : Dev ℝ} {f : Field} {v : Val ℝ} {d' : Dev ℝ} (h : C1
       | _ => contradiction
     · rw [hcb hf, hn]; exact hi.cb
 
-theorem setAll_rinv {d d' : Dev ℝ} {ops : List (Field × Val ℝ)} (hi : RInv d) (h : setAll d ops = .ok d') :
-    RInv d' := by
+/-- **any history of assignments, accepted or rejected-and-caught, preserves `RInv`.** -/
+theorem runAll_rinv {d : Dev ℝ} (hi : RInv d) (ops : List (Field × Val ℝ)) : RInv (runAll d ops) := by
   induction ops generalizing d with
-  | nil => simp [setAll] at h; rw [← h]; exact hi
+  | nil => exact hi
   | cons p rest ih =>
     obtain ⟨f, v⟩ := p
-    simp only [setAll] at h
-    have hs := C11.setField_step d f v
-    cases hr : setField d f v with
-    | mk d1 e =>
-      rw [hr] at hs
-      cases e with
-      | some e => simp [hr] at h
-      | none =>
-        simp only [hr] at h
-        exact ih (step_rinv hs hi) h
+    simp only [runAll]
+    exact ih (step_rinv (C11.setField_step d f v) hi)
+
+theorem setAll_rinv {d d' : Dev ℝ} {ops : List (Field × Val ℝ)} (hi : RInv d) (h : setAll d ops = .ok d') :
+    RInv d' := by
+  rw [C11.setAll_eq_runAll h]; exact runAll_rinv hi ops
 
 /-- `CDevice2.__init__` after the base constructor: nothing, or one (accepted) `cbounds` assignment. -/
 theorem cdevice2Post_step {d d' : Dev ℝ} (h : cdevice2Post d = .ok d') :
@@ -759,14 +779,20 @@ theorem construct_rinv {cls : Cls} {n : ℕ} {bv : PyVal ℝ} {cb : CbSpec ℝ} 
     · exact cdevice2Post_rinv h0 h
     · cases h; exact h0
 
-/-- **reachable**: returned by a constructor, then any history of *accepted* assignments. -/
+/-- **reachable**: returned by a constructor, then **any** history of assignments — each one accepted, or rejected
+and the exception caught (`runAll`). -/
 def Reach (d : Dev ℝ) : Prop :=
   ∃ (cls : Cls) (n : ℕ) (bv : PyVal ℝ) (cb : CbSpec ℝ) (kw : List (Field × Val ℝ)) (d0 : Dev ℝ)
-    (ops : List (Field × Val ℝ)), construct cls n bv cb kw = .ok d0 ∧ setAll d0 ops = .ok d
+    (ops : List (Field × Val ℝ)), construct cls n bv cb kw = .ok d0 ∧ runAll d0 ops = d
+
+/-- in particular: a constructor followed by accepted assignments only. -/
+theorem reach_of_setAll {cls : Cls} {n : ℕ} {bv : PyVal ℝ} {cb : CbSpec ℝ} {kw : List (Field × Val ℝ)} {d0 d : Dev ℝ}
+    {ops : List (Field × Val ℝ)} (hc : construct cls n bv cb kw = .ok d0) (hs : setAll d0 ops = .ok d) : Reach d :=
+  ⟨cls, n, bv, cb, kw, d0, ops, hc, (C11.setAll_eq_runAll hs).symm⟩
 
 theorem reach_rinv {d : Dev ℝ} (h : Reach d) : RInv d := by
-  obtain ⟨cls, n, bv, cb, kw, d0, ops, hc, hs⟩ := h
-  exact setAll_rinv (construct_rinv hc) hs
+  obtain ⟨cls, n, bv, cb, kw, d0, ops, hc, rfl⟩ := h
+  exact runAll_rinv (construct_rinv hc) ops
 
 /-! ### from the invariant to `Leaf.AcceptedCore` -/
 
@@ -965,7 +991,7 @@ theorem step_fresh {d : Dev ℝ} {f : Field} {v : Val ℝ} {d' : Dev ℝ} (h : C
     cases h with
     | attr ho => exact absurd (C11.owns_cbounds d) ho
     | cbNone hf' hv => intro _ cs hcs; cases hcs
-    | cb spec st e hf' hv hs' hr =>
+    | cb spec st hf' hv hs' hr =>
       intro hnum cs hcs c hc'
       simp only at hcs hnum
       subst hcs
@@ -1225,9 +1251,9 @@ noncomputable def exDevStale : Dev ℝ :=
   { (Dev.default .device 1 : Dev ℝ) with table := [(some 5, some 6)], cbounds := some [⟨0, 1, 0, 1⟩] }
 
 theorem exDevStale_reach : Reach exDevStale := by
-  refine ⟨.device, 1, .seq .tuple [.num 0, .num 1], .pair 0 1, [],
-    { (Dev.default .device 1 : Dev ℝ) with table := [(some 0, some 1)], cbounds := some [⟨0, 1, 0, 1⟩] },
-    [(.bounds, .bounds (.seq .tuple [.num 5, .num 6]))], ?_, ?_⟩
+  refine reach_of_setAll (cls := .device) (n := 1) (bv := .seq .tuple [.num 0, .num 1]) (cb := .pair 0 1) (kw := [])
+    (d0 := { (Dev.default .device 1 : Dev ℝ) with table := [(some 0, some 1)], cbounds := some [⟨0, 1, 0, 1⟩] })
+    (ops := [(.bounds, .bounds (.seq .tuple [.num 5, .num 6]))]) ?_ ?_
   · simp [construct, setAll, setField, owns, validateBoundsW, npShape, commonShape, pairPath, normElem, pyLen, entries,
       scalars, scalar?, finish, zipRows, rowAllNone, rowHasNone, rowOrdered, rowPair, Dev.default, tableNumeric,
       setCbounds, cb4Ok, cbRangeOk, Validate.sliceSum, clipIdx, sumRange, sumTo, lbOf, hbOf]
@@ -1268,11 +1294,12 @@ noncomputable def exDevC2 : Dev ℝ :=
     cbounds := some [⟨0, 1, 0, 1⟩, ⟨0, 2, 0, 2⟩] }
 
 theorem exDevC2_reach : Reach exDevC2 := by
-  refine ⟨.cdevice2, 2, .seq .tuple [.num 0, .num 1], .items [.four ⟨0, 1, 0, 1⟩, .four ⟨0, 1, 1, 2⟩], [],
-    { (Dev.default .cdevice2 2 : Dev ℝ) with
+  refine reach_of_setAll (cls := .cdevice2) (n := 2) (bv := .seq .tuple [.num 0, .num 1])
+    (cb := .items [.four ⟨0, 1, 0, 1⟩, .four ⟨0, 1, 1, 2⟩]) (kw := [])
+    (d0 := { (Dev.default .cdevice2 2 : Dev ℝ) with
       table := [(some 0, some 1), (some 0, some 1)],
-      cbounds := some [⟨0, 1, 0, 1⟩, ⟨0, 1, 1, 2⟩] },
-    [(.cbounds, .cbounds (.items [.four ⟨0, 1, 0, 1⟩, .four ⟨0, 2, 0, 2⟩]))], ?_, ?_⟩
+      cbounds := some [⟨0, 1, 0, 1⟩, ⟨0, 1, 1, 2⟩] })
+    (ops := [(.cbounds, .cbounds (.items [.four ⟨0, 1, 0, 1⟩, .four ⟨0, 2, 0, 2⟩]))]) ?_ ?_
   · simp [construct, setAll, setField, owns, validateBoundsW, npShape, commonShape, pairPath, normElem, pyLen, entries,
       scalars, scalar?, finish, zipRows, rowAllNone, rowHasNone, rowOrdered, rowPair, Dev.default, tableNumeric,
       setCbounds, cbLoop, cbItemOk, cb4Ok, cbRangeOk, Validate.sliceSum, clipIdx, sumRange, sumTo, lbOf, hbOf,
@@ -1554,6 +1581,76 @@ example (z p : ℕ → ℝ) : ∃ l, exDevI0.toLeaf? ext0 = some l ∧ l.cost z 
   obtain ⟨l, hl⟩ := exDevI0_toLeaf
   exact ⟨l, hl, idevice_leaf_cost_eq exDevI0 ext0 l (reach_rinv exDevI0_reach) rfl hl z p⟩
 
+/-- non-vacuity of the rejected-and-caught half of `Reach`: on the constructed `SDevice` (`c1 = 2`) the assignment
+`c2 := 5` raises; the caller catches it; the device is unchanged and still reachable. -/
+theorem exDevS_reach_caught : (setField exDevS .c2 (.scalar 5)).2 = some .valueError ∧
+    Reach (runAll exDevS [(.c2, .scalar 5)]) := by
+  refine ⟨?_, ⟨_, _, _, _, _, exDevS, [(.c2, .scalar 5)], exDevS_construct, rfl⟩⟩
+  simp [setField, owns, scalarSet, guardSet, sC2Ok, exDevS, Dev.default]
+  norm_num
+
+/-! ### `TDevice` (`TDev`, `tdeviceCtor`): no setters, one constructor -/
+
+/-- the leaf a constructed `TDevice` of length `n` denotes. -/
+noncomputable def tdevToLeaf? (n : ℕ) (t : TDev ℝ) : Option (Leaf ℝ) :=
+  if tableNumeric t.table = true ∧ t.table.length = n then
+    some ⟨n, lbOf t.table, hbOf t.table, (t.cbounds.getD []).map cb4ToLeaf,
+      .tdevice ⟨t.sustainment, t.efficiency, t.tInit, t.tOptimal, t.tRange, fun k => t.tExternal.getD k 0, slot t.c⟩⟩
+  else none
+
+/-- **every `TDevice` the constructor returns denotes a leaf satisfying the full `Leaf.Accepted`.** -/
+theorem tdeviceCtor_accepted {n : ℕ} {bv : PyVal ℝ} {cb : CbSpec ℝ} {s e ti topt tr : ℝ} {te : List ℝ} {c : PVal ℝ}
+    {t : TDev ℝ} (h : tdeviceCtor n bv cb s e ti topt tr te c = .ok t) (l : Leaf ℝ) (hl : tdevToLeaf? n t = some l) :
+    l.Accepted false := by
+  unfold tdeviceCtor at h
+  cases hc : construct Cls.device n bv cb ([] : List (Field × Val ℝ)) with
+  | error e' => simp [hc] at h
+  | ok d0 =>
+    simp only [hc] at h
+    split_ifs at h with hchk
+    cases h
+    obtain ⟨_, _, hn⟩ := construct_fresh hc (by simp)
+    unfold tdevToLeaf? at hl
+    simp only at hl
+    split_ifs at hl with hnum
+    cases hl
+    have hdl : d0.toLeaf? ext0 = some ⟨d0.n, lbOf d0.table, hbOf d0.table, devCbs d0, .device⟩ := by
+      have hcls : d0.cls = .device := (construct_fresh hc (by simp)).2.1
+      simp [Dev.toLeaf?, devKind?, hcls, hnum.1, hnum.2, hn]
+    obtain ⟨a1, a2, a3, _⟩ := construct_accepted hc (by simp) ext0 _ hdl
+    simp only [hn] at a1 a2 a3
+    exact ⟨a1, fun hp => (by cases hp), a3, tdevice_check_accepted n s e ti topt tr _ te.length c hchk⟩
+
+/-- `TDevice` has no open corner: constructed ⇒ `Leaf.ConvexAcc`, convex cost, gradient, PSD, definedness. -/
+theorem tdeviceCtor_convexAcc {n : ℕ} {bv : PyVal ℝ} {cb : CbSpec ℝ} {s e ti topt tr : ℝ} {te : List ℝ} {c : PVal ℝ}
+    {t : TDev ℝ} (h : tdeviceCtor n bv cb s e ti topt tr te c = .ok t) (l : Leaf ℝ) (hl : tdevToLeaf? n t = some l) :
+    l.ConvexAcc ∧ NotOpenCorner l := by
+  have hacc := tdeviceCtor_accepted h l hl
+  have hnc : NotOpenCorner l := by
+    unfold tdevToLeaf? at hl
+    split_ifs at hl
+    cases hl
+    trivial
+  exact ⟨accepted_convexAcc l false hacc hnc, hnc⟩
+
+/-- non-vacuity: a constructed 3-slot heater. -/
+noncomputable def exTDev : TDev ℝ :=
+  { table := [(some 0, some 3), (some 0, some 3), (some 0, some 3)], cbounds := none, sustainment := 9/10,
+    efficiency := -2, tInit := 20, tOptimal := 21, tRange := 3, tExternal := [30, 30, 30], c := .scalar 1 }
+
+theorem exTDev_ctor :
+    tdeviceCtor (α := ℝ) 3 (.seq .tuple [.num 0, .num 3]) .pyNone (9/10) (-2) 20 21 3 [30, 30, 30] (.scalar 1) = .ok exTDev := by
+  simp [tdeviceCtor, tdeviceCheck, tSustainmentOk, tEfficiencyOk, tRangeOk, iParamOk, PVal.lenOk, PVal.all,
+    construct, setAll, setField, owns, validateBoundsW, npShape, commonShape, pairPath, normElem, pyLen, entries,
+    scalars, scalar?, finish, zipRows, rowAllNone, rowHasNone, rowOrdered, rowPair, Dev.default, exTDev]
+  try norm_num
+
+example : ∃ l, tdevToLeaf? 3 exTDev = some l ∧ l.Accepted false ∧ l.ConvexAcc := by
+  have hl : tdevToLeaf? 3 exTDev = some ⟨3, lbOf exTDev.table, hbOf exTDev.table, [],
+      .tdevice ⟨9/10, -2, 20, 21, 3, fun k => ([30, 30, 30] : List ℝ).getD k 0, slot (.scalar 1)⟩⟩ := by
+    simp [tdevToLeaf?, exTDev, tableNumeric]
+  exact ⟨_, hl, tdeviceCtor_accepted exTDev_ctor _ hl, (tdeviceCtor_convexAcc exTDev_ctor _ hl).1⟩
+
 end DK.Link
 
 #print axioms DK.Link.accepted_core
@@ -1571,7 +1668,10 @@ end DK.Link
 #print axioms DK.Link.accepted_leaf_summary
 #print axioms DK.Link.accepted_leaf_summary_full
 #print axioms DK.Link.accepted_first_order_opt
+#print axioms DK.Link.validateBoundsW_tableOK
 #print axioms DK.Link.step_rinv
+#print axioms DK.Link.runAll_rinv
+#print axioms DK.Link.reach_of_setAll
 #print axioms DK.Link.construct_rinv
 #print axioms DK.Link.reach_core
 #print axioms DK.Link.reach_convexAcc
@@ -1584,3 +1684,6 @@ end DK.Link
 #print axioms DK.Link.idevice_real_hess_psd
 #print axioms DK.Link.idevice_leaf_cost_eq
 #print axioms DK.Link.tdevice_check_accepted
+#print axioms DK.Link.tdeviceCtor_accepted
+#print axioms DK.Link.tdeviceCtor_convexAcc
+#print axioms DK.Link.exDevS_reach_caught
